@@ -213,7 +213,7 @@ def shards(tier, prop):
                                     'cond_timeout': 900, 'path_timeout': 30})
                     continue
                 out.append({'fn': 'rnd', 'pin': {'alg': a, 'p0': p0, 'props': [prop], 'quick': True, 'free_i2': True, 'free_pools': True},
-                            'cond_timeout': 2400, 'path_timeout': 30})
+                            'cond_timeout': 1800, 'path_timeout': 30})
             if a in (0, 1, 2):
                 out.append({'fn': 'rnd', 'pin': {'alg': a, 'p0': 0, 'p1': 0, 'p2': 2, 'props': [prop], 'empty_pool': True}, 'cond_timeout': 600, 'path_timeout': 30})
     out.append({'fn': 'rnd', 'pin': {'alg': algs[0], 'p0': 0, 'p1': 0, 'p2': 0, 'props': [prop], 'quick': True}, 'cond_timeout': 40, 'twin': True})
